@@ -12,7 +12,7 @@ import sys
 from .. import configs as C
 from .. import runner as R
 
-RULE = ("cases = emitted actions of a stream sweep (distinct by value per stream) + generated actions and action pairs; non-trivial = pair of the same kind differing in one "
+RULE = ("cases = emitted actions of a stream sweep (distinct by value per stream), of late-finalisation histories of the online classes (k further Forwards drawn before finalize), + generated actions and action pairs; non-trivial = pair of the same kind differing in one "
         "parameter, or of different kinds with equal parameters, or an emitted/generated Forward/Reverse covering more than one step; distinct = distinct (repr a, repr b)")
 
 
@@ -246,10 +246,73 @@ def _shard(job):
     return [_exec(c) for c in C.generate(C.sweep_strategy(tier), count, seed * 1000 + shard)]
 
 
+def _late(job):
+    """Online schedule whose driver draws k further Forward actions after the forward was already
+    told to reach n, and only then calls finalize(n) (accepted per C10: told >= n). Every action
+    emitted in such a history must be well formed too; no executor semantics are applied here."""
+    cfg, k = job
+    from .. import lib
+    from ..lib import wellformed
+    out = {"cfg": cfg, "k": k, "viol": [], "actions": 0}
+    try:
+        s = lib.quiet(C.build, cfg)
+    except Exception:
+        return out
+    n = cfg["n"]
+    extra = 0
+    finalized = False
+    hook = _hook_factory()
+    for _ in range(40 * n + 200):
+        try:
+            a = lib.quiet(next, s)
+        except StopIteration:
+            break
+        except Exception as e:
+            out["raised"] = type(e).__name__
+            break
+        out["actions"] += 1
+        for p in wellformed(a):
+            out["viol"].append(("malformed-action", "%s drawing %d further Forwards before finalize(%d): %s" % (C.describe(cfg), k, n, p)))
+        for pred, d in hook(a):
+            out["viol"].append((pred, "%s drawing %d further Forwards before finalize(%d): %s" % (C.describe(cfg), k, n, d)))
+        if not finalized and isinstance(a, lib.Forward) and int(a.args[1]) >= n:
+            if extra >= k:
+                try:
+                    lib.quiet(s.finalize, n)
+                except Exception as e:
+                    out["raised"] = "finalize:" + type(e).__name__
+                    break
+                finalized = True
+            extra += 1
+        if isinstance(a, lib.EndReverse):
+            break
+    return out
+
+
+def late_jobs(tier):
+    N = 5 if tier == "quick" else 9
+    for n in range(1, N + 1):
+        for k in (1, 2, 3):
+            yield ({"cls": "None", "n": n, "passes": 0}, k)
+            yield ({"cls": "SingleMemory", "n": n, "passes": 1}, k)
+            yield ({"cls": "SingleDisk", "move": False, "n": n, "passes": 1}, k)
+            yield ({"cls": "SingleDisk", "move": True, "n": n, "passes": 1}, k)
+            for p in (1, 2, 3):
+                yield ({"cls": "TwoLevel", "period": p, "b": 1, "storage": "RAM", "traj": "maximum", "n": n, "passes": 1}, k)
+
+
 def check_witness(data, show=False):
     w = data["witness"]
     res = []
     seen = set()
+    if data.get("kind") == "late":
+        cfg, k = w["late"]
+        o = _late((cfg, k))
+        for pred, d in o["viol"]:
+            if pred not in seen:
+                seen.add(pred)
+                res.append((("emitted:" + C.variant(cfg), pred), w, d, "late"))
+        return res
     if data.get("kind") == "pair":
         A, B = build_action(w["a"]), build_action(w["b"])
         if show:
@@ -307,6 +370,17 @@ def run(prop, args):
         for (p, pred, detail) in r["viol"]:
             if p == prop:
                 rep.add_violation(("emitted:Mixed[tabulated]", pred), r["cfg"], detail)
+    # (a') late-finalisation histories of the online classes
+    lres = R.pmap(_late, list(late_jobs(tier)))
+    for o in lres:
+        rep.evaluations += 1
+        rep.count("regions", "late-finalisation-history")
+        rep.nontrivial.add("late:%s:%d" % (C.key(o["cfg"]), o["k"]))
+        hit = set()
+        for pred, d in o["viol"]:
+            if pred not in hit:
+                hit.add(pred)
+                rep.add_violation(("emitted:" + C.variant(o["cfg"]), pred), {"late": [o["cfg"], o["k"]]}, d, kind="late")
     # (b) constructed actions and pairs
     pc = 250 if tier == "quick" else 5000
     pres = [x for part in R.pmap(_pairs, [(tier, args.seed, k, pc) for k in range(16)], chunksize=1) for x in part]
@@ -327,6 +401,17 @@ def run(prop, args):
                        "expected equality computed from raw .args tuples and type identity, never through the library's =="]
 
     def shrink(b, w):
+        if isinstance(w, dict) and "late" in w:
+            best = None
+            for n in range(1, w["late"][0]["n"] + 1):
+                for k in range(1, w["late"][1] + 1):
+                    c = dict(w["late"][0])
+                    c["n"] = n
+                    o = _late((c, k))
+                    d = [d for p, d in o["viol"] if p == b[1]]
+                    if d:
+                        return {"late": [c, k]}, d[0]
+            return best
         if b[0] == "constructed":
             # shrink numbers towards 0/1 while the predicate still fails
             def fails(a_, b_):
